@@ -322,11 +322,18 @@ type newTorrentEvent struct {
 func (e newTorrentEvent) apply(s *state) {
 	ctrl, ok := s.torrentControls[e.torrent.InfoHash()]
 	if ok && ctrl.dispatcher.Complete() && !e.torrent.Complete() {
-		// The scheduler considers the torrent complete, while it is
-		// actually not on disk. This happens when the disk cache
-		// asynchronously evicts the torrent, leaving the scheduler
-		// incorrectly thinking the torrent is still on disk.
-		// We fix this by removing the mem entry for the torrent.
+		// The scheduler considers the torrent complete, while e.torrent is not.
+		// Either e.torrent is a stale handle, created before the download
+		// completed, or the disk cache asynchronously evicted the torrent,
+		// leaving the scheduler incorrectly thinking the torrent is still on
+		// disk. Ask the archive which of the two it is.
+		t, err := s.sched.torrentArchive.GetTorrent(e.namespace, ctrl.dispatcher.Digest())
+		if err == nil && t.Complete() {
+			// Still on disk: the download e was created for has completed.
+			e.errc <- nil
+			return
+		}
+		// Evicted. We fix this by removing the mem entry for the torrent.
 		s.removeTorrent(e.torrent.InfoHash(), nil)
 		ok = false
 	}
